@@ -16,7 +16,13 @@ Lemma run_op_F : forall f o,
   | ORestack ch w => request_change f ch w
   | OShow w => window_show f w
   | OHide w => window_hide f w
-  | OFocus w => focus_gained fixed f w None                   (* tickit_window_take_focus *)
+  | OFocus w =>                                         (* tickit_window_take_focus: the ancestors are held *)
+    if v_events_asis fixed then focus_gained fixed f w None
+    else
+      cd <- getw w ;; count_up f (w_parent cd) ;;;
+      cd' <- getw w ;; held <- ref_up fixed f (w_parent cd') ;;
+      focus_gained fixed f w None ;;;
+      unref_list fixed f held
   | OSteal w b => upd w (fun c => set_steal c b)
   | OExpose w => expose f w
   | OGetRoot w => get_root f w ;;; ret tt
@@ -27,14 +33,27 @@ Lemma run_op_F : forall f o,
   | OBind w id k m r acts => upd w (fun c => set_hs c (w_hs c ++ [mkH id k m r acts]))
   | ONotify w b => upd w (fun c => set_fcn c b)
   | OUnbind w id => upd w (fun c => set_hs c (filter (fun hd => negb (h_id hd =? id)) (w_hs c)))
-  | OGeom w =>                                          (* tickit_window_set_geometry to a different rectangle *)
+  | OGeom w => set_geometry fixed f w
+  | OMove w =>
     getw w ;;;
-    (if v_events_asis fixed then ret tt else log_op (OFrameRef w) ;;; window_ref w) ;;;
-    c <- getw w ;; run_ev_handlers fixed f w (w_hs c) HGeom ;;;
-    (if v_events_asis fixed then ret tt else log_op (OFrameUnref w) ;;; unref fixed f w)
+    if v_events_asis fixed then
+      set_geometry fixed f w ;;;
+      c2 <- getw w ;; if w_focused c2 then root <- get_root f w ;; request_restore root else ret tt
+    else                                                (* the ancestors and the window are held across the call *)
+      cd <- getw w ;; count_up f (w_parent cd) ;;;
+      cd' <- getw w ;; held <- ref_up fixed f (w_parent cd') ;;
+      ((log_op (OFrameRef w) ;;; window_ref w) ;;;
+       (set_geometry fixed f w ;;;
+        (c2 <- getw w ;; if w_focused c2 then focus_chain_changed f (Some w) else ret tt)) ;;;
+       (log_op (OFrameUnref w) ;;; unref fixed f w)) ;;;
+      unref_list fixed f held
+  (* the terminal's RESIZE binding of the root window exists exactly while it lives *)
+  | OResize =>
+    b <- root_bound ;; (if b then on_term_resize fixed f else ret tt) ;;;
+    b2 <- root_bound ;; if b2 then expose f 1%positive else ret tt
   | OTouch w j walk =>
     getw w ;;; (match j with Some a => getw a ;;; ret tt | None => ret tt end) ;;;
-    if walk then scroll_up f w else ret tt
+    if walk then scrollrect f w else ret tt
   | ONop => ret tt
   | OFrameRef _ | OFrameUnref _ => ret tt      (* not calls: in a script they do nothing and leave no trace *)
   end).
@@ -87,12 +106,34 @@ Lemma run_ev_handlers_F : forall f w hs k,
   end).
 Proof. reflexivity. Qed.
 
+Lemma set_geometry_F : forall f w,
+  set_geometry fixed (S f) w =
+  (getw w ;;;
+  if v_events_asis fixed then c <- getw w ;; run_ev_handlers fixed f w (w_hs c) HGeom
+  else
+    cd <- getw w ;; count_up f (w_parent cd) ;;;
+    cd' <- getw w ;; held <- ref_up fixed f (w_parent cd') ;;
+    ((log_op (OFrameRef w) ;;; window_ref w) ;;;
+     (c <- getw w ;; run_ev_handlers fixed f w (w_hs c) HGeom) ;;;
+     (log_op (OFrameUnref w) ;;; unref fixed f w)) ;;;
+    unref_list fixed f held).
+Proof. reflexivity. Qed.
+
+Lemma on_term_resize_F : forall f,
+  on_term_resize fixed (S f) =
+  (let root := 1%positive in
+  getw root ;;;
+  ((if v_events_asis fixed then ret tt else log_op (OFrameRef root) ;;; window_ref root) ;;;
+   (set_geometry fixed f root ;;; expose f root) ;;;
+   (if v_events_asis fixed then ret tt else log_op (OFrameUnref root) ;;; unref fixed f root))).
+Proof. reflexivity. Qed.
+
 Lemma do_expose_F : forall f w,
   do_expose fixed (S f) w =
   ((if v_events_asis fixed then ret tt else log_op (OFrameRef w) ;;; window_ref w) ;;;
-  (if v_events_asis fixed then c <- getw w ;; expose_kids_asis fixed f w (w_first c)
-   else kids <- copy_children f w ;; expose_kids fixed f w kids) ;;;
-  c <- getw w ;; run_ev_handlers fixed f w (w_hs c) HExpose ;;;
+  ((if v_events_asis fixed then c <- getw w ;; expose_kids_asis fixed f w (w_first c)
+    else kids <- copy_children f w ;; expose_kids fixed f w kids) ;;;
+   (c <- getw w ;; run_ev_handlers fixed f w (w_hs c) HExpose)) ;;;
   (if v_events_asis fixed then ret tt else log_op (OFrameUnref w) ;;; unref fixed f w)).
 Proof. reflexivity. Qed.
 
@@ -106,7 +147,7 @@ Lemma expose_kids_F : forall f w kids,
     else
       ck <- getw k ;;
       if negb (w_visible ck) then expose_kids fixed f w kids'
-      else do_expose fixed f k ;;; is_child f w k ;;; expose_kids fixed f w kids'      (* the mask only if it still is a child *)
+      else do_expose fixed f k ;;; (is_child f w k ;;; expose_kids fixed f w kids')      (* the mask only if it still is a child *)
   end).
 Proof. reflexivity. Qed.
 
@@ -125,52 +166,53 @@ Proof. reflexivity. Qed.
 Lemma focus_lost_F : forall f w,
   focus_lost fixed (S f) w =
   ((if v_events_asis fixed then ret tt else log_op (OFrameRef w) ;;; window_ref w) ;;;
-  c <- getw w ;;
-  (match w_focus c with
-   | Some fc =>
-     focus_lost fixed f fc ;;;
-     c' <- getw w ;; if w_fcn c' then run_ev_handlers fixed f w (w_hs c') HFocus else ret tt
-   | None => ret tt
-   end) ;;;
-  c2 <- getw w ;;
-  (if w_focused c2 then setw w (set_focused c2 false) ;;; c3 <- getw w ;; run_ev_handlers fixed f w (w_hs c3) HFocus else ret tt) ;;;
+  ((c <- getw w ;;
+    match w_focus c with
+    | Some fc =>
+      focus_lost fixed f fc ;;;
+      (c' <- getw w ;; if w_fcn c' then run_ev_handlers fixed f w (w_hs c') HFocus else ret tt)
+    | None => ret tt
+    end) ;;;
+   (c2 <- getw w ;;
+    if w_focused c2 then setw w (set_focused c2 false) ;;; (c3 <- getw w ;; run_ev_handlers fixed f w (w_hs c3) HFocus) else ret tt)) ;;;
   (if v_events_asis fixed then ret tt else log_op (OFrameUnref w) ;;; unref fixed f w)).
 Proof. reflexivity. Qed.
 
 Lemma focus_gained_F : forall f w child,
   focus_gained fixed (S f) w child =
   ((if v_events_asis fixed then ret tt else log_op (OFrameRef w) ;;; window_ref w) ;;;
-  c <- getw w ;;
-  (match w_focus c with                         (* if(win->focused_child && win->focused_child != child) *)
-   | Some fc =>
-     if negb (ptr_eqb (Some fc) child) then
-       focus_lost fixed f fc ;;;
-       c' <- getw w ;; if w_fcn c' then run_ev_handlers fixed f w (w_hs c') HFocus else ret tt
-     else ret tt
-   | None => ret tt
-   end) ;;;
-  (match child with                             (* if(child && win->is_focused) *)
-   | Some _ =>
-     c0 <- getw w ;;
-     if w_focused c0 then setw w (set_focused c0 false) ;;; c0' <- getw w ;; run_ev_handlers fixed f w (w_hs c0') HFocus else ret tt
-   | None => ret tt
-   end) ;;;
-  c1 <- getw w ;;
-  (match w_parent c1 with
-   | Some p => if w_visible c1 then focus_gained fixed f p (Some w) else ret tt
-   | None => root <- get_root f w ;; request_restore root
-   end) ;;;
-  (match child with
-   | None => upd w (fun c => set_focused c true) ;;; c4 <- getw w ;; run_ev_handlers fixed f w (w_hs c4) HFocus
-   | Some _ => c4 <- getw w ;; if w_fcn c4 then run_ev_handlers fixed f w (w_hs c4) HFocus else ret tt
-   end) ;;;
-  (* win->focused_child = (child && child->parent != win) ? NULL : child   (pinned: = child) *)
-  (match child with
-   | Some ch =>
-     if v_events_asis fixed then upd w (fun c => set_focus c child)
-     else cch <- getw ch ;; upd w (fun c => set_focus c (if ptr_eqb (w_parent cch) (Some w) then child else None))
-   | None => upd w (fun c => set_focus c None)
-   end) ;;;
+  ((c <- getw w ;;
+    match w_focus c with                         (* if(win->focused_child && win->focused_child != child) *)
+    | Some fc =>
+      if negb (ptr_eqb (Some fc) child) then
+        focus_lost fixed f fc ;;;
+        (c' <- getw w ;; if w_fcn c' then run_ev_handlers fixed f w (w_hs c') HFocus else ret tt)
+      else ret tt
+    | None => ret tt
+    end) ;;;
+   ((match child with                             (* if(child && win->is_focused) *)
+     | Some _ =>
+       c0 <- getw w ;;
+       if w_focused c0 then setw w (set_focused c0 false) ;;; (c0' <- getw w ;; run_ev_handlers fixed f w (w_hs c0') HFocus) else ret tt
+     | None => ret tt
+     end) ;;;
+    ((c1 <- getw w ;;
+      match w_parent c1 with
+      | Some p => if w_visible c1 then focus_gained fixed f p (Some w) else ret tt
+      | None =>                                  (* not necessarily the root: a handler may have closed the window *)
+        if v_events_asis fixed then root <- get_root f w ;; request_restore root else focus_chain_changed f (Some w)
+      end) ;;;
+     ((match child with
+       | None => upd w (fun c => set_focused c true) ;;; (c4 <- getw w ;; run_ev_handlers fixed f w (w_hs c4) HFocus)
+       | Some _ => c4 <- getw w ;; if w_fcn c4 then run_ev_handlers fixed f w (w_hs c4) HFocus else ret tt
+       end) ;;;
+      (* win->focused_child = (child && child->parent != win) ? NULL : child   (pinned: = child) *)
+      (match child with
+       | Some ch =>
+         if v_events_asis fixed then upd w (fun c => set_focus c child)
+         else cch <- getw ch ;; upd w (fun c => set_focus c (if ptr_eqb (w_parent cch) (Some w) then child else None))
+       | None => upd w (fun c => set_focus c None)
+       end))))) ;;;
   (if v_events_asis fixed then ret tt else log_op (OFrameUnref w) ;;; unref fixed f w)).
 Proof. reflexivity. Qed.
 
@@ -180,13 +222,13 @@ Lemma window_flush_F : forall f w,
   if go then
     (* the root is still used after the expose handlers have run: a reference on it *)
     (if v_events_asis fixed then ret tt else log_op (OFrameRef w) ;;; window_ref w) ;;;
-    r2 <- getr w ;;
-    (if r_expose r2 then
-       setr w (set_rexpose r2 false) ;;;
-       do_expose fixed f w ;;;
-       updr w (fun r => set_rrestore r true)
-     else ret tt) ;;;
-    flush_end f w ;;;
+    ((r2 <- getr w ;;
+      if r_expose r2 then
+        setr w (set_rexpose r2 false) ;;;
+        (do_expose fixed f w ;;;
+         updr w (fun r => set_rrestore r true))
+      else ret tt) ;;;
+     flush_end f w) ;;;
     (if v_events_asis fixed then ret tt else log_op (OFrameUnref w) ;;; unref fixed f w)
   else ret tt).
 Proof. reflexivity. Qed.
